@@ -2,6 +2,7 @@
 Spec: Feed.tla (PriceFeed::update as the code orders its checks), FeedProps.tla (monitors),
 MC_Feed (bounded model, monitors as action properties), Trace_Feed (TLC trace validation of the
 real zero-copy PriceFeed driven through the cfg-guarded hooks with a stubbed clock)."""
+import json
 import vlib
 from props import c24
 
@@ -10,6 +11,29 @@ def classify(e, mon):
     older = e["ts"] < e["pre"]["ts"]
     return {"monitor": mon, "op": e["op"], "res": e["res"], "idem": e["idem"], "older": older,
             "valid_request": e["min"] <= e["price"] <= e["max"]}
+
+
+def classify_wide(e, mon):
+    ts, pts = int(e["ts"]["s"]), int(e["pre"]["ts"]["s"])
+    return {"monitor": mon, "op": e["op"], "res": e["res"], "idem": e["idem"], "older": ts < pts, "tier": "wide",
+            "ts_diff_overflows_i64": not (-(1 << 63) <= ts - pts < (1 << 63))}
+
+
+def _check_limbs(wev):
+    """the limb form (judged by TLC) must encode the decimal string (what the real code returned)"""
+    def chk(x):
+        v = 0
+        for limb in x["l"]:
+            assert 0 <= limb < (1 << 20)
+            v = (v << 20) | limb
+        if (-v if x["neg"] else v) != int(x["s"]) or len(x["l"]) != 7 or (x["neg"] and v == 0):
+            raise vlib.ToolError("wide event: limbs do not encode %s" % x["s"])
+    for e in wev:
+        for k in ("price", "min", "max", "ts", "slot", "now", "excess"):
+            chk(e[k])
+        for st in (e["pre"], e["post"]):
+            for x in st.values():
+                chk(x)
 
 
 def _judge(ctx, name, path, driver):
@@ -25,7 +49,6 @@ def _judge(ctx, name, path, driver):
 def run(ctx):
     ctx.build("h-programs", "c25")
     if ctx.replay_file:
-        import json
         rep = json.load(open(ctx.replay_file))
         src = ctx.path("replay-in.ndjson")
         vlib.write_ndjson(src, [rep["replay"]["event"]])
@@ -45,6 +68,36 @@ def run(ctx):
     rr = ctx.path("random.ndjson")
     ctx.run_bin("c25", ["random", "--seed", ctx.seed, "--n", 6000 if ctx.quick else 60000, "--out", rr])
     ev2 = _judge(ctx, "random", rr, "h-programs c25 random")
+    # 4. type-limit tier: real i64 / u64 / u128 values at and around the limits; every number is logged as a decimal
+    #    string plus limbs and ordered / added by TLC itself (BigNum.tla, calibrated against integers in MC_BigNum)
+    c24.mc(ctx, "MC_BigNum", "MC_BigNum_quick" if ctx.quick else "MC_BigNum", timeout=900)
+    wr = ctx.path("wide.ndjson")
+    ctx.run_bin("c25", ["wide", "--seed", ctx.seed, "--n", 8000 if ctx.quick else 80000, "--out", wr])
+    wev = vlib.read_ndjson(wr)
+    _check_limbs(wev)
+    fails, drifts = c24.validate_chunked(ctx, "Trace_FeedBig", wr, chunk=60000)
+    for f in fails:
+        e = wev[f["i"] - 1]
+        ctx.report(classify_wide(e, f["mon"]), {"driver": "h-programs c25 wide", "event": e})
+    I64MIN = -(1 << 63)
+    wcls = {"wide_ok": 0, "wide_skip": 0, "wide_err": 0, "wrap_window": 0, "ts_at_limits": 0, "future_saturates": 0}
+    for e in wev:
+        wcls["wide_" + e["res"]] += 1
+        ts, pts = int(e["ts"]["s"]), int(e["pre"]["ts"]["s"])
+        if pts > 0 and ts < I64MIN + pts:          # ts - stored ts does not fit an i64
+            wcls["wrap_window"] += 1
+        if abs(ts) >= (1 << 62):
+            wcls["ts_at_limits"] += 1
+        if int(e["now"]["s"]) + int(e["excess"]["s"]) > (1 << 63) - 1:
+            wcls["future_saturates"] += 1
+    for k, v in wcls.items():
+        if v == 0:
+            if not ctx.violations:
+                raise vlib.ToolError("vacuity: no wide event of class %s" % k)
+    ctx.cov["wide_classes"] = wcls
+    ctx.distinct += len({json.dumps([e["pre"], e["price"], e["min"], e["max"], e["ts"], e["slot"], e["now"], e["excess"], e["idem"]],
+                                    sort_keys=True) for e in wev})
+    ctx.cov["samples"] += [wev[len(wev) // 2]]
     allev = ev + ev2
     key = lambda e: (tuple(sorted(e["pre"].items())), e["price"], e["min"], e["max"], e["ts"], e["slot"], e["now"],
                      e["excess"], e["idem"])
@@ -68,7 +121,7 @@ def run(ctx):
     ctx.cov["classes"] = cnt
     ctx.cov["samples"] += [ev[len(ev) // 2], ev2[7], ev2[-1]]
     ctx.assumptions += ["the clock is the stubbed Clock sysvar (slot, unix_timestamp) set by the driver before each call",
-                        "price values are small integers (u128 fields); type-limit values are outside the statement"]
+                        "type-limit values are a boundary-biased sample (wide tier), the small domain is exhaustive"]
     ctx.cov["trusted_base"] += ["TLC", "harness h-programs c25 driver (projection of PriceFeed, byte comparison)",
                                 "cfg-guarded hooks states/oracle/feed.rs::verif (thin wrappers)"]
     return ctx.finish("model_checking",
